@@ -51,7 +51,7 @@ def check(ctx):
     bound = 6 if ctx.tier == 'quick' else 24
     inv = common.regex_inventory(ctx)
     usage = common.regex_usage(ctx)
-    ctx.floor('regex patterns folded', sum(1 for r in inv if r['rv'] is not None), 43)
+    ctx.floor('regex patterns folded', sum(1 for r in inv if r['rv'] is not None), 35)
     sizes = {}
     n_used = 0
     for r in inv:
@@ -408,7 +408,7 @@ def _progress(ctx):
             if isinstance(n, ast.While) and isinstance(n.test, ast.Constant) \
                     and n.test.value is True:
                 sites.append((fi, n))
-    ctx.floor('while-True scanning loops', len(sites), 6)
+    ctx.floor('while-True scanning loops', len(sites), 2)
     for fi, loop in sites:
         construct = f"{fi.qualname}: while True @{_loop_sig(loop)}"
         has_break = any(isinstance(n, ast.Break) for n in _walk_same_loop(loop))
